@@ -36,6 +36,13 @@ Proof.
   split; [cbn; perm_explicit|]. split; [f2|]. split; [reflexivity|fin].
 Qed.
 
+(* the same with the interior sides named *)
+Definition cf_I (A B C D ib : Z) : list (list Z) := [[ib; C; D]; [D; B; ib]; [ib; B; C]; [D; ib; A]; [A; ib; C]; [A; B; ib]].
+Definition cf_I' (A B C D ib : Z) : list (list Z) := [[ib; D; C]; [B; D; ib]; [B; ib; C]; [A; ib; D]; [A; C; ib]; [ib; B; A]].
+Lemma cell_fan_sides_perm A B C D ib :
+  Permutation (sides_of (cf_replace A B C D ib :: cf_cells A B C D ib)) (tet_faces [A; B; C; D] ++ cf_I A B C D ib ++ cf_I' A B C D ib).
+Proof. unfold cf_I, cf_I'. cbn. perm_explicit. Qed.
+
 (* split_tet_from_face_center: the cell [v0;v1;v2;v3] whose side number iF is split at ic *)
 Theorem face_centre_sides v0 v1 v2 v3 ic iF cells :
   0 <= iF < 4 -> fc_new_cells [v0; v1; v2; v3] (Some iF) ic = Ok cells ->
